@@ -1085,7 +1085,9 @@ macro_rules! variants { ($m:ident, $name:expr, $si:expr, $n:expr, $prio:expr, $s
     let t4 = $m::run::<WKey, i64, u32>($n, $prio, $steps, &|i| WKey(i as u16), &|p| p, &|e| e as u32, &|e| *e as usize);
     // node values whose PartialOrd disagrees with their Ord (the library promises to order nodes by Ord)
     let t5 = $m::run::<u16, Score, u32>($n, $prio, $steps, &|i| i as u16, &|p| score(p), &|e| e as u32, &|e| *e as usize);
-    for (tag, a, b) in [("String-keys,unit-edges", &t0e, &t1), ("u64::MAX-values,String-node-values", &t0, &t2), ("char-keys,tuple-edges", &t0, &t3), ("keys-with-colliding-Hash-and-Display", &t0, &t4), ("node-values-with-PartialOrd-coarser-than-Ord", &t0, &t5)] {
+    // long keys made of multi-byte characters (error messages, Display widths, byte-offset arithmetic)
+    let t6 = $m::run::<String, i64, u32>($n, $prio, $steps, &|i| format!("{}東京都千代田区丸の内一丁目東京都-{}", "a".repeat(i % 4), i), &|p| p, &|e| e as u32, &|e| *e as usize);
+    for (tag, a, b) in [("long-multibyte-String-keys", &t0, &t6), ("String-keys,unit-edges", &t0e, &t1), ("u64::MAX-values,String-node-values", &t0, &t2), ("char-keys,tuple-edges", &t0, &t3), ("keys-with-colliding-Hash-and-Display", &t0, &t4), ("node-values-with-PartialOrd-coarser-than-Ord", &t0, &t5)] {
         if a != b {
             let i = a.iter().zip(b.iter()).position(|(x, y)| x != y).unwrap_or(a.len().min(b.len()));
             println!("DIFF {} {} {} step {} :: baseline `{}` :: variant `{}`", $si, $name, tag, i, a.get(i).map(|s| s.as_str()).unwrap_or("<none>"), b.get(i).map(|s| s.as_str()).unwrap_or("<none>"));
@@ -1238,6 +1240,6 @@ pub fn payload_independence(ctx: &mut Ctx, prop: &'static str) {
     for sc in scripts.iter().take(nscripts) {
         ctx.stats.nontrivial(&("payload", sc));
     }
-    ctx.stats.sample_kind("payload-script", 1, || json!({"payload_script": scripts[0], "run_with": ["(u16,i32,u32) baseline", "(String,i64,())", "(u64 near MAX, String, u64 near MAX)", "(char,i64,(u8,Vec<u8>))", "(WKey: Hash collides for every second key, Display not injective; i64; u32)", "(u16; Score(f64) with IEEE PartialOrd but total-order Ord, using -0.0 / 0.0; u32)"], "on": MODS}));
-    ctx.stats.extra.insert("payload_independence".into(), json!({"scripts": nscripts, "variants": 5, "flavours": 4, "identical_traces": same}));
+    ctx.stats.sample_kind("payload-script", 1, || json!({"payload_script": scripts[0], "run_with": ["(u16,i32,u32) baseline", "(String,i64,())", "(u64 near MAX, String, u64 near MAX)", "(char,i64,(u8,Vec<u8>))", "(WKey: Hash collides for every second key, Display not injective; i64; u32)", "(u16; Score(f64) with IEEE PartialOrd but total-order Ord, using -0.0 / 0.0; u32)", "(String keys of 40+ bytes made of 3-byte characters behind 0-3 ASCII bytes; i64; u32)"], "on": MODS}));
+    ctx.stats.extra.insert("payload_independence".into(), json!({"scripts": nscripts, "variants": 6, "flavours": 4, "identical_traces": same}));
 }
